@@ -23,5 +23,11 @@ Cfg == [mfs |-> 4096, sasl |-> [mech |-> Mech, user |-> U, pass |-> P]]
 Script == [side |-> Side, id |-> [i \in 1..Len(run) |-> Tag(run[i])], ideal |-> st.ph,
            ev |-> <<[e |-> IF Side = "listener" THEN "AAccept" ELSE "AOpen", cfg |-> Cfg]>> \o [i \in 1..Len(run) |-> Ev(run[i])]
                   \o <<[e |-> "PHeader", kind |-> "amqp"], [e |-> "PFrame", perf |-> "open", ch |-> 0, f |-> [cid |-> "peer", mfs |-> 4096, chmax |-> 10]], [e |-> "PEof"]>>]
-Emit == Len(run) >= 1 => PrintT(<<"SCRIPT", ToJson(Script)>>)
+\* A successful exchange that needs nothing from the server (SASL header + init, as for PLAIN and ANONYMOUS) is also played with everything the
+\* client has to say -- SASL header, init, AMQP header, open -- written in one piece: how the bytes fall into reads must not matter (C06).
+Piped == [side |-> Side, id |-> <<"pipelined">> \o [i \in 1..Len(run) |-> Tag(run[i])], ideal |-> st.ph,
+          ev |-> <<[e |-> "AAccept", cfg |-> Cfg], [e |-> "Mark", what |-> "pipelined"]>> \o [i \in 1..Len(run) |-> Ev(run[i]) @@ [nosettle |-> TRUE]]
+                 \o <<[e |-> "PHeader", kind |-> "amqp", nosettle |-> TRUE], [e |-> "PFrame", perf |-> "open", ch |-> 0, f |-> [cid |-> "peer", mfs |-> 4096, chmax |-> 10]], [e |-> "PEof"]>>]
+Emit == Len(run) >= 1 => (PrintT(<<"SCRIPT", ToJson(Script)>>)
+                          /\ (Side = "listener" /\ st.ph = "amqp" /\ Len(run) = 2 => PrintT(<<"SCRIPT", ToJson(Piped)>>)))
 =============================================================================
